@@ -3,6 +3,7 @@ package pcrypto
 import (
 	"bytes"
 	"crypto/ed25519"
+	"fmt"
 	"github.com/mr-tron/base58/base58"
 	"testing"
 
@@ -25,8 +26,10 @@ type c01Tamper struct {
 }
 
 type c01Case struct {
-	Key       int         `json:"key"`
-	Body      vstat.Bytes `json:"body"`
+	Key  int         `json:"key"`
+	Body vstat.Bytes `json:"body"`
+	// Big, if > 0, replaces Body by a deterministic body of that many bytes (many hash blocks / buffers)
+	Big       int         `json:"big,omitempty"`
 	Ctx       string      `json:"ctx"`
 	HT        int         `json:"ht"`
 	Tampers   []c01Tamper `json:"tampers"`
@@ -56,6 +59,7 @@ func genC01(t *rapid.T) c01Case {
 	c := c01Case{
 		Key:  rapid.IntRange(0, 3).Draw(t, "key"),
 		Body: bodyGen.Draw(t, "body"),
+		Big:  gen.BigLen(t, "big"),
 		Ctx:  ctxGen.Draw(t, "ctx"),
 		HT:   rapid.IntRange(1, 3).Draw(t, "ht"),
 	}
@@ -95,6 +99,9 @@ func genC01(t *rapid.T) c01Case {
 
 // c01Build constructs the message of the case (before wire mutation).
 func c01Build(c c01Case) (*peer.SignedMsg, error) {
+	if c.Big > 0 {
+		c.Body = gen.DetBytes(fmt.Sprintf("c01-body-%d", c.Key), c.Big)
+	}
 	priv := gen.Key(c.Key)
 	msg, err := peer.NewSignedMsg(c.Ctx, priv, hash.HashType(c.HT), append([]byte{}, c.Body...))
 	if err != nil {
